@@ -20,6 +20,7 @@ func init() {
 			"size x position x encoding x serial width x entry extensions x backend, verdict compared with the regenerated statement list of VerifyClientCertificate"
 		c01Validator(r)
 		c11Numberless(r, "C01")
+		c01NameLayouts(r)
 	})
 	register("C08", func(r *Run) {
 		runRepoProps(r, "C08")
@@ -136,6 +137,19 @@ func runRepoProps(r *Run, focus string) {
 			{Kind: "restart"},
 			{Kind: "provision", Loc: 11, Cands: []int{1}},
 			{Kind: "hs", Issuer: 7, Serial: 10, CDP: 0, Cands: []int{1}}}, false},
+		// (seeded defect C16-f) verify_log on disk: unverifiable first list, a genuine list no stored signer can vouch for, a forged
+		// list, a connection that presents the genuine signer, restart under verify: the forged list must not be in force
+		{repoCfg{"verify_log", "actively", false, true}, []repoOp{
+			{Kind: "serve", Loc: 1, Served: "doc", Doc: &repoDoc{Signer: 9, Number: 921, Serials: []int64{13}}},
+			{Kind: "hs", Issuer: 7, Serial: 13, CDP: 1, Cands: []int{1}},
+			{Kind: "serve", Loc: 1, Served: "doc", Doc: &repoDoc{Signer: 1, Number: 922, Serials: []int64{10}}},
+			{Kind: "tick"},
+			{Kind: "serve", Loc: 1, Served: "doc", Doc: &repoDoc{Signer: 9, Number: 923, Serials: []int64{14}}},
+			{Kind: "tick"},
+			{Kind: "hs", Issuer: 7, Serial: 14, CDP: 1, Cands: []int{1}},
+			{Kind: "restartcfg", Sig: "verify"},
+			{Kind: "hs", Issuer: 7, Serial: 14, CDP: 1, Cands: []int{1}},
+			{Kind: "hs", Issuer: 7, Serial: 10, CDP: 1, Cands: []int{1}}}, false},
 		// lenient / strict, a distribution point whose URL cannot be parsed (alone, and next to a usable one)
 		{repoCfg{"verify", "actively", false, true}, []repoOp{{Kind: "hs", Issuer: 7, Serial: 10, CDP: 6, Cands: []int{1}}, {Kind: "hs", Issuer: 7, Serial: 10, CDP: 7, Cands: []int{1}}}, false},
 		{repoCfg{"none", "background", false, false}, []repoOp{{Kind: "hs", Issuer: 7, Serial: 10, CDP: 7, Cands: []int{1}}, {Kind: "tick"}, {Kind: "hs", Issuer: 8, Serial: 11, CDP: 6, Cands: []int{3}}, {Kind: "tick"}}, false},
